@@ -97,8 +97,36 @@ SCENARIOS = {
         edits=[],
         call2=dict(main='/proj/src/main.asm', idirs=[], cwd='/proj/run')),
 }
+SCENARIOS.update({
+    # the first call fails while an included file is being read; then the cause is repaired
+    'failed_nested_then_created': dict(
+        files={'/proj/src/main.asm': ['top:', 'addi x1, x0, K0', 'include lib.asm', 'j top'],
+               '/proj/src/lib.asm': ['VALUE = 42', 'lib_entry:', 'include dev.asm', 'addi x2, x0, VALUE']},
+        call1=dict(main='/proj/src/main.asm', idirs=[], cwd='/proj/run'),
+        edits=[('write', '/proj/src/dev.asm', ['dev:', 'dw dev'])],
+        call2=dict(main='/proj/src/main.asm', idirs=[], cwd='/proj/run')),
+    'failed_then_idir_added': dict(
+        files={'/proj/src/main.asm': ['top:', 'addi x1, x0, K0', 'include lib.asm', 'j top'],
+               '/proj/src/lib.asm': ['lib_entry:', 'include board.asm', 'dw lib_entry'],
+               '/proj/boards/board.asm': ['board:', 'addi x3, x0, 7']},
+        call1=dict(main='/proj/src/main.asm', idirs=[], cwd='/proj/run'),
+        edits=[],
+        call2=dict(main='/proj/src/main.asm', idirs=['/proj/boards'], cwd='/proj/run')),
+    'failed_in_include_then_edited': dict(
+        files={'/proj/src/main.asm': ['top:', 'include lib.asm', 'addi x1, x0, K0', 'j top'],
+               '/proj/src/lib.asm': ['lib_entry:', 'addi x2, x0, 5000']},
+        call1=dict(main='/proj/src/main.asm', idirs=[], cwd='/proj/run'),
+        edits=[('write', '/proj/src/lib.asm', ['lib_entry:', 'addi x2, x0, 50'])],
+        call2=dict(main='/proj/src/main.asm', idirs=[], cwd='/proj/run')),
+    'failed_include_bytes_then_created': dict(
+        files={'/proj/src/main.asm': ['top:', 'include lib.asm', 'addi x1, x0, K0'],
+               '/proj/src/lib.asm': ['lib_entry:', 'include_bytes blob.bin', 'dw lib_entry']},
+        call1=dict(main='/proj/src/main.asm', idirs=[], cwd='/proj/run'),
+        edits=[('write', '/proj/src/blob.bin', b'\x01\x02\x03\x04')],
+        call2=dict(main='/proj/src/main.asm', idirs=[], cwd='/proj/run')),
+})
 BY_PROP = {
-    'C14': ['idir_switch', 'nested_edit', 'shadow_appears', 'source_text_then_path'],
+    'C14': ['idir_switch', 'nested_edit', 'shadow_appears', 'source_text_then_path', 'failed_nested_then_created', 'failed_then_idir_added'],
     'C15': ['include_removed', 'nested_include_removed', 'include_bytes_removed', 'same_text_other_project_error'],
     'C16': list(SCENARIOS),
 }
